@@ -7,12 +7,12 @@ from .rustsrc import File
 VERIF = os.path.dirname(os.path.dirname(os.path.abspath(__file__)))
 PINS = {
  'operator.rs': {
-   'InfixOpManager::new': ['C01', 'C08'], 'InfixOpManager::register': ['C01', 'C08'],
+   'InfixOpManager::new': ['C01', 'C08'], 'InfixOpManager::register': ['C01', 'C02', 'C08', 'C12'],
    'PrefixOpManager::new': ['C01', 'C08'], 'PrefixOpManager::register': ['C01', 'C08'],
    'PostfixOpManager::new': ['C01', 'C08'], 'PostfixOpManager::register': ['C01', 'C08'],
  },
  'function.rs': {'InnerFunctionManager::new': ['C01', 'C08'], 'InnerFunctionManager::register': ['C01', 'C08']},
- 'context.rs': {'macro:create_context': ['C06', 'C08'], 'Context::new': ['C06'], 'Context::set': ['C01', 'C06', 'C08']},
+ 'context.rs': {'macro:create_context': ['C06', 'C08'], 'Context::new': ['C06'], 'Context::set': ['C01', 'C06', 'C07', 'C08', 'C09']},
  'init.rs': {'init': ['C01', 'C08', 'C12']},
  'descriptor.rs': {'DescriptorManager::new': ['C01', 'C18'], 'DescriptorManager::set': ['C18']},
  # the public entry points: what they initialise, and in which order, is assumed by every unit (registries initialised before the first token is read)
